@@ -17,8 +17,8 @@ import AnsiProofs.Lemmas.Pieces
   3 `partition_settings` (+ `partition_settings_first`, `rpartition_settings_last`,
     `partition_absent`, `partition_wf`),
   4 `split_settings` (explicit separator; + `split_wf`),
-  5 `Layout`, `trueOff` (+ `Layout.piece_at`, `Layout.trueOff_unique`), `splitWs_settings`,
-    `splitlines_settings`,
+  5 `Layout`, `trueOff` (+ `Layout.piece_at`, `Layout.trueOff_unique`,
+    `Layout.trueOff_unique_nonempty`), `splitWs_settings`, `splitlines_settings` (+ `splitlines_wf`),
   6 `case_settings`, `mapText_wf`,
   7 `assignStr_shorter`, `assignStr_shorter_closed`, `assignStr_wf_shorter`.
   All statements hold for ALL values and arguments; none had to be weakened.
@@ -174,4 +174,589 @@ theorem split_wf (x : AStr) (h : WF x) (sep : Option Str) (m : Int) (r : Bool) (
     (hps : x.splitGen sep m r = .ok ps) : ∀ p ∈ ps, WF p :=
   PiecesL.split_wf x h sep m r ps hps
 
+/-! ## 5 — whitespace splitting and `splitlines`: layouts and true offsets -/
+
+/-- `g₀ ++ p₀ ++ g₁ ++ p₁ ++ … ++ gₙ` -/
+def interleave : List Str → List Str → Str
+  | g :: gs, p :: ps => g ++ p ++ interleave gs ps
+  | g :: _, [] => g
+  | [], _ => []
+
+/-- `Layout sepc s gaps pieces`: the text `s` is `g₀ ++ p₀ ++ g₁ ++ p₁ ++ … ++ gₙ` and every gap
+    consists of separator characters only.  This says where the pieces ARE, without `find`. -/
+structure Layout (sepc : Char → Bool) (s : Str) (gaps pieces : List Str) : Prop where
+  count : gaps.length = pieces.length + 1
+  text  : s = interleave gaps pieces
+  sep   : ∀ g ∈ gaps, ∀ c ∈ g, sepc c = true
+
+/-- the TRUE offset of piece `j` of a layout: everything that is laid out before it, i.e. the gaps
+    `g₀ … gⱼ` and the pieces `p₀ … pⱼ₋₁` -/
+def trueOff (gaps pieces : List Str) (j : Nat) : Nat :=
+  ((gaps.take (j + 1)).map List.length).sum + ((pieces.take j).map List.length).sum
+
+private theorem trueOff_zero (g : Str) (gs : List Str) (ps : List Str) :
+    trueOff (g :: gs) ps 0 = g.length := by
+  simp [trueOff]
+
+private theorem trueOff_succ (g p : Str) (gs ps : List Str) (j : Nat) :
+    trueOff (g :: gs) (p :: ps) (j + 1) = g.length + p.length + trueOff gs ps j := by
+  simp [trueOff]; omega
+
+/-- the piece really sits at its true offset -/
+theorem Layout.piece_at {sepc : Char → Bool} {s : Str} {gaps pieces : List Str}
+    (h : Layout sepc s gaps pieces) (j : Nat) (p : Str) (hj : pieces[j]? = some p) :
+    pySlice s (trueOff gaps pieces j) (trueOff gaps pieces j + p.length) = p := by
+  obtain ⟨hc, ht, -⟩ := h
+  subst ht
+  unfold pySlice
+  induction pieces generalizing gaps j with
+  | nil => simp at hj
+  | cons q ps ih =>
+    cases gaps with
+    | nil => simp at hc
+    | cons g gs =>
+      have hc' : gs.length = ps.length + 1 := by simpa using hc
+      cases j with
+      | zero =>
+        simp only [List.getElem?_cons_zero, Option.some.injEq] at hj
+        subst hj
+        rw [trueOff_zero, interleave, List.take_left' (by simp), List.drop_left' rfl]
+      | succ j =>
+        simp only [List.getElem?_cons_succ] at hj
+        have e : g.length + q.length = (g ++ q).length := by simp
+        rw [trueOff_succ, interleave, e, Nat.add_assoc, List.take_length_add_append,
+          List.drop_length_add_append]
+        exact ih j hj hc'
+
+/-- The true offset of a NON-EMPTY piece does not depend on the layout chosen: if every piece is
+    empty or starts with a non-separator character, any two layouts of `s` with the same pieces
+    give every non-empty piece the same offset.  (Empty pieces have no determined position:
+    `"a\n\nb"` is `a ++ "\n" ++ "" ++ "\n" ++ b` and also `a ++ "\n\n" ++ "" ++ "" ++ b`.) -/
+theorem Layout.trueOff_unique {sepc : Char → Bool} {s : Str} {gaps gaps' pieces : List Str}
+    (h : Layout sepc s gaps pieces) (h' : Layout sepc s gaps' pieces)
+    (hp : ∀ p ∈ pieces, ∀ c ∈ p.head?, sepc c = false) (j : Nat) (p : Str)
+    (hj : pieces[j]? = some p) (hne : p ≠ []) : trueOff gaps pieces j = trueOff gaps' pieces j := by
+  have aux : ∀ (pieces gaps gaps' : List Str) (a a' : Str), (∀ c ∈ a, sepc c = true) →
+      (∀ c ∈ a', sepc c = true) → gaps.length = pieces.length + 1 →
+      gaps'.length = pieces.length + 1 → (∀ g ∈ gaps, ∀ c ∈ g, sepc c = true) →
+      (∀ g ∈ gaps', ∀ c ∈ g, sepc c = true) →
+      a ++ interleave gaps pieces = a' ++ interleave gaps' pieces →
+      (∀ p ∈ pieces, ∀ c ∈ p.head?, sepc c = false) →
+      ∀ (j : Nat) (p : Str), pieces[j]? = some p → p ≠ [] →
+        a.length + trueOff gaps pieces j = a'.length + trueOff gaps' pieces j := by
+    intro pieces
+    induction pieces with
+    | nil => intro _ _ _ _ _ _ _ _ _ _ _ _ j p hj; simp at hj
+    | cons q ps ih =>
+      intro gaps gaps' a a' ha ha' hc hc' hg hg' heq hp j p hj hne
+      cases gaps with
+      | nil => simp at hc
+      | cons g gs =>
+      cases gaps' with
+      | nil => simp at hc'
+      | cons g' gs' =>
+      have hcs : gs.length = ps.length + 1 := by simpa using hc
+      have hcs' : gs'.length = ps.length + 1 := by simpa using hc'
+      have hag : ∀ c ∈ a ++ g, sepc c = true := by
+        intro c hc
+        rcases List.mem_append.mp hc with h1 | h1
+        · exact ha c h1
+        · exact hg g (by simp) c h1
+      have hag' : ∀ c ∈ a' ++ g', sepc c = true := by
+        intro c hc
+        rcases List.mem_append.mp hc with h1 | h1
+        · exact ha' c h1
+        · exact hg' g' (by simp) c h1
+      have hgs : ∀ g ∈ gs, ∀ c ∈ g, sepc c = true := fun g0 h0 => hg g0 (by simp [h0])
+      have hgs' : ∀ g ∈ gs', ∀ c ∈ g, sepc c = true := fun g0 h0 => hg' g0 (by simp [h0])
+      have hps : ∀ p ∈ ps, ∀ c ∈ p.head?, sepc c = false := fun p0 h0 => hp p0 (by simp [h0])
+      simp only [interleave] at heq
+      cases q with
+      | nil =>
+        cases j with
+        | zero => simp at hj; exact absurd hj hne
+        | succ j =>
+          simp only [List.getElem?_cons_succ] at hj
+          have := ih gs gs' (a ++ g) (a' ++ g') hag hag' hcs hcs' hgs hgs'
+            (by simpa using heq) hps j p hj hne
+          rw [trueOff_succ, trueOff_succ]
+          simp only [List.length_append, List.length_nil] at this ⊢
+          omega
+      | cons c t =>
+        have hcsep : sepc c = false := hp (c :: t) (by simp) c (by simp)
+        have heq' : (a ++ g) ++ c :: (t ++ interleave gs ps) =
+            (a' ++ g') ++ c :: (t ++ interleave gs' ps) := by simpa using heq
+        obtain ⟨e1, e2⟩ := sep_prefix_unique hag hag' hcsep hcsep heq'
+        have e1l := congrArg List.length e1
+        simp only [List.length_append] at e1l
+        cases j with
+        | zero => rw [trueOff_zero, trueOff_zero]; omega
+        | succ j =>
+          simp only [List.getElem?_cons_succ] at hj
+          have e3 : interleave gs ps = interleave gs' ps := by
+            simpa using e2
+          have := ih gs gs' [] [] (by simp) (by simp) hcs hcs' hgs hgs' (by simpa using e3) hps j p hj hne
+          rw [trueOff_succ, trueOff_succ]
+          simp only [List.length_nil, Nat.zero_add] at this
+          omega
+  have := aux pieces gaps gaps' [] [] (by simp) (by simp) h.count h'.count h.sep h'.sep
+    (by rw [List.nil_append, List.nil_append, ← h.text, ← h'.text]) hp j p hj hne
+  simpa using this
+
+
+/-- The same for whitespace splitting, where every piece is non-empty and starts with a
+    non-separator character or has an empty gap before it (the unsplit rest of `rsplit(None, m)`):
+    two such layouts of `s` with the same pieces give every piece the same offset. -/
+theorem Layout.trueOff_unique_nonempty {sepc : Char → Bool} {s : Str} {gaps gaps' pieces : List Str}
+    (h : Layout sepc s gaps pieces) (h' : Layout sepc s gaps' pieces)
+    (hne : ∀ p ∈ pieces, p ≠ [])
+    (hp : ∀ (j : Nat) (p : Str), pieces[j]? = some p →
+      (∀ c ∈ p.head?, sepc c = false) ∨ gaps[j]? = some [])
+    (hp' : ∀ (j : Nat) (p : Str), pieces[j]? = some p →
+      (∀ c ∈ p.head?, sepc c = false) ∨ gaps'[j]? = some [])
+    (j : Nat) (hj : j < pieces.length) : trueOff gaps pieces j = trueOff gaps' pieces j := by
+  obtain ⟨hc, ht, hg⟩ := h
+  obtain ⟨hc', ht', hg'⟩ := h'
+  rw [ht] at ht'
+  clear ht
+  induction pieces generalizing gaps gaps' j with
+  | nil => simp at hj
+  | cons q ps ih =>
+    cases gaps with
+    | nil => simp at hc
+    | cons g gs =>
+    cases gaps' with
+    | nil => simp at hc'
+    | cons g' gs' =>
+    simp only [interleave] at ht'
+    have hq : q ≠ [] := hne q (by simp)
+    have key : g = g' ∧ interleave gs ps = interleave gs' ps := by
+      cases q with
+      | nil => exact absurd rfl hq
+      | cons c t =>
+        by_cases hcs : sepc c = false
+        · have e : g ++ c :: (t ++ interleave gs ps) = g' ++ c :: (t ++ interleave gs' ps) := by
+            simpa using ht'
+          obtain ⟨e1, e2⟩ := sep_prefix_unique (hg g (by simp)) (hg' g' (by simp)) hcs hcs e
+          exact ⟨e1, by simpa using e2⟩
+        · have h1 : g = [] := by
+            rcases hp 0 (c :: t) rfl with h1 | h1
+            · exact absurd (h1 c (by simp)) hcs
+            · simpa using h1
+          have h2 : g' = [] := by
+            rcases hp' 0 (c :: t) rfl with h1 | h1
+            · exact absurd (h1 c (by simp)) hcs
+            · simpa using h1
+          subst h1 h2
+          exact ⟨rfl, by simpa using ht'⟩
+    cases j with
+    | zero => rw [trueOff_zero, trueOff_zero, key.1]
+    | succ j =>
+      rw [trueOff_succ, trueOff_succ, key.1]
+      congr 1
+      exact ih (gaps := gs) (gaps' := gs') (fun p hp0 => hne p (by simp [hp0]))
+        (fun j p hjp => by simpa using hp (j + 1) p (by simpa using hjp))
+        (fun j p hjp => by simpa using hp' (j + 1) p (by simpa using hjp))
+        j (by simpa using hj) (by simpa using hc) (fun g0 h0 => hg g0 (by simp [h0]))
+        (by simpa using hc') key.2 (fun g0 h0 => hg' g0 (by simp [h0]))
+/-! ### from the (gap, piece) pairs of the lemma file to `Layout` / `trueOff` -/
+
+private theorem interleave_pairs (pairs : List (Str × Str)) (tail : Str) :
+    interleave (pairs.map (·.1) ++ [tail]) (pairs.map (·.2)) = catL pairs ++ tail := by
+  induction pairs with
+  | nil => rfl
+  | cons gp rest ih =>
+    rw [catL_cons]
+    simp only [List.map_cons, List.cons_append, interleave, ih, List.append_assoc]
+
+private theorem layout_of_pairs {sepc : Char → Bool} {s : Str} {pairs : List (Str × Str)} {tail : Str}
+    (hs : s = catL pairs ++ tail) (ht : ∀ c ∈ tail, sepc c = true)
+    (hg : ∀ gp ∈ pairs, ∀ c ∈ gp.1, sepc c = true) :
+    Layout sepc s (pairs.map (·.1) ++ [tail]) (pairs.map (·.2)) where
+  count := by simp
+  text := by rw [interleave_pairs]; exact hs
+  sep := by
+    intro g hg' c hc
+    rcases List.mem_append.mp hg' with h1 | h1
+    · obtain ⟨gp, hgp, rfl⟩ := List.mem_map.mp h1
+      exact hg gp hgp c hc
+    · simp only [List.mem_singleton] at h1
+      subst h1
+      exact ht c hc
+
+private theorem trueOff_of_pairs (pairs : List (Str × Str)) (tail : Str) (j : Nat) (hj : j < pairs.length) :
+    trueOff (pairs.map (·.1) ++ [tail]) (pairs.map (·.2)) j =
+      (((pairs.map (·.1)).take (j + 1)).map List.length).sum +
+        (((pairs.map (·.2)).take j).map List.length).sum := by
+  unfold trueOff
+  rw [List.take_append_of_le_length (by simp; omega)]
+
+/-- the piece cut out at the true offset of the `j`-th (gap, piece) pair -/
+private theorem piece_of_pairs (x : AStr) (h : WF x) (pairs : List (Str × Str)) (tail : Str) (j : Nat)
+    (gp : Str × Str) (hgp : pairs[j]? = some gp) (n : Nat) {k : Nat}
+    (hk : k < (x.getSlice
+      (some ((0 + ((((pairs.map (·.1)).take (j + 1)).map List.length).sum +
+        (((pairs.map (·.2)).take j).map List.length).sum) : Nat) : Int))
+      (some ((0 + ((((pairs.map (·.1)).take (j + 1)).map List.length).sum +
+        (((pairs.map (·.2)).take j).map List.length).sum) + n : Nat) : Int))).len) :
+    act (x.getSlice
+      (some ((0 + ((((pairs.map (·.1)).take (j + 1)).map List.length).sum +
+        (((pairs.map (·.2)).take j).map List.length).sum) : Nat) : Int))
+      (some ((0 + ((((pairs.map (·.1)).take (j + 1)).map List.length).sum +
+        (((pairs.map (·.2)).take j).map List.length).sum) + n : Nat) : Int))) k =
+      act x (trueOff (pairs.map (·.1) ++ [tail]) (pairs.map (·.2)) j + k) := by
+  have hj : j < pairs.length := by
+    rcases Nat.lt_or_ge j pairs.length with h1 | h1
+    · exact h1
+    · rw [List.getElem?_eq_none h1] at hgp; cases hgp
+  rw [getSlice_nat_act x h _ _ hk, trueOff_of_pairs pairs tail j hj, Nat.zero_add]
+
+/-- `split(None, m)` / `rsplit(None, m)`: the text is laid out as `g₀ p₀ g₁ p₁ … gₙ` with the
+    pieces `pⱼ` and gaps `gⱼ` of whitespace only; every piece is non-empty and starts with a
+    non-whitespace character — or has an empty gap before it (this happens only for the unsplit rest
+    of `rsplit(None, m)`, which is a prefix of the text and may begin with whitespace); and the
+    `j`-th piece reports, character by character, the settings of the receiver at its TRUE offset
+    `|g₀| + |p₀| + … + |gⱼ|` -/
+theorem splitWs_settings (x : AStr) (h : WF x) (m : Int) (r : Bool) (ps : List AStr)
+    (hps : x.splitGen none m r = .ok ps) :
+    ∃ gaps : List Str, Layout Py.isSpace x.s gaps (ps.map (·.s)) ∧
+      ∀ (j : Nat) (p : AStr), ps[j]? = some p →
+        p.len ≠ 0 ∧ ((∀ c ∈ p.s.head?, Py.isSpace c = false) ∨ gaps[j]? = some []) ∧
+        ∀ k < p.len, act p k = act x (trueOff gaps (ps.map (·.s)) j + k) := by
+  obtain ⟨pairs, tail, hs, htail, hpairs, hstrs, hoffs⟩ := ws_layout x.s m r
+  have htext : ps.map (·.s) = pairs.map (·.2) := by
+    rw [C10.splitWs_text x m r ps hps, hstrs]
+  simp only [AStr.splitGen, Except.ok.injEq] at hps
+  rw [hstrs, hoffs] at hps
+  subst hps
+  refine ⟨pairs.map (·.1) ++ [tail], ?_, ?_⟩
+  · rw [htext]
+    exact layout_of_pairs hs htail (fun gp hgp => (hpairs gp hgp).2.1)
+  · intro j p hj
+    rw [htext]
+    rw [piecesAt_getElem?, offsL_getElem?] at hj
+    cases hgp : pairs[j]? with
+    | none => rw [hgp] at hj; cases hj
+    | some gp =>
+      rw [hgp] at hj
+      simp only [Option.map_some, Option.some.injEq] at hj
+      have hmem : gp ∈ pairs := List.mem_of_getElem? hgp
+      have hjl : j < pairs.length := by
+        rcases Nat.lt_or_ge j pairs.length with h1 | h1
+        · exact h1
+        · rw [List.getElem?_eq_none h1] at hgp; cases hgp
+      have hs_p : p.s = gp.2 := by
+        have := congrArg (fun l => l[j]?) htext
+        simp only [List.getElem?_map, piecesAt_getElem?, offsL_getElem?, hgp, Option.map_some,
+          Option.some.injEq] at this
+        rw [← hj]; exact this
+      refine ⟨?_, ?_, ?_⟩
+      · intro h0
+        have : p.s = [] := List.eq_nil_of_length_eq_zero h0
+        exact (hpairs gp hmem).1 (by rw [← hs_p]; exact this)
+      · rcases (hpairs gp hmem).2.2 with h1 | h1
+        · exact Or.inl (by rw [hs_p]; exact h1)
+        · right
+          rw [List.getElem?_append_left (by simpa using hjl), List.getElem?_map, hgp]
+          simp [h1]
+      · intro k hk
+        subst hj
+        exact piece_of_pairs x h pairs tail j gp hgp gp.2.length hk
+
+/-- the separator characters of `splitlines(keepends)`: the line breaks — or nothing at all when
+    the line breaks are kept in the pieces -/
+def lineSep (keepends : Bool) (c : Char) : Bool := !keepends && Py.isLineBreak c
+
+theorem lineSep_eq : lineSep = PiecesL.lineSep := rfl
+
+/-- `splitlines(keepends)`: the text is laid out as `g₀ p₀ g₁ p₁ … gₙ` with the lines `pⱼ` and
+    gaps consisting of line-break characters only (`\r\n` included; all gaps are empty when
+    `keepends`).  Every NON-EMPTY line reports, character by character, the settings of the receiver
+    at its TRUE offset in this layout; an EMPTY line (which the code may locate early, see the
+    example `"a\n\nb"` below) has no characters and an empty table. -/
+theorem splitlines_settings (x : AStr) (h : WF x) (keepends : Bool) :
+    ∃ gaps : List Str, Layout (lineSep keepends) x.s gaps ((x.splitlines keepends).map (·.s)) ∧
+      (∀ t ∈ (x.splitlines keepends).map (·.s), ∀ c ∈ t, lineSep keepends c = false) ∧
+      ∀ (j : Nat) (p : AStr), (x.splitlines keepends)[j]? = some p →
+        (∀ k < p.len, act p k = act x (trueOff gaps ((x.splitlines keepends).map (·.s)) j + k)) ∧
+        (p.len = 0 → p = { s := [], fmts := [] }) := by
+  obtain ⟨pairs, tail, hs, htail, hpairs, hstrs, hoffs⟩ := lines_layout x.s keepends
+  have htext : (x.splitlines keepends).map (·.s) = pairs.map (·.2) := by
+    rw [C10.splitlines_text, hstrs]
+  rw [htext]
+  refine ⟨pairs.map (·.1) ++ [tail], ?_, ?_, ?_⟩
+  · exact layout_of_pairs hs htail (fun gp hgp => (hpairs gp hgp).1)
+  · intro t ht
+    obtain ⟨gp, hgp, rfl⟩ := List.mem_map.mp ht
+    exact (hpairs gp hgp).2
+  · intro j p hj
+    unfold AStr.splitlines at hj
+    rw [hstrs, piecesAt_getElem?] at hj
+    cases hol : (AStr.pieceOffsets x.s 0 (pairs.map (·.2)) 0)[j]? with
+    | none => rw [hol] at hj; cases hj
+    | some ol =>
+      rw [hol] at hj
+      simp only [Option.map_some, Option.some.injEq] at hj
+      subst hj
+      refine ⟨?_, fun h0 => getSlice_of_len_zero x _ _ h0⟩
+      intro k hk
+      have hjl : j < pairs.length := by
+        have := (List.getElem?_eq_some_iff.mp hol).1
+        rw [pieceOffsets_length] at this
+        simpa using this
+      have hgp : pairs[j]? = some pairs[j] := List.getElem?_eq_getElem hjl
+      have hT := offsL_getElem? pairs 0 j
+      rw [hgp, Option.map_some] at hT
+      obtain ⟨e, he, -, he3⟩ := hoffs j _ _ hT
+      rw [hol, Option.some.injEq] at he
+      subst he
+      have hn : pairs[j].2.length ≠ 0 := by
+        intro h0
+        rw [getSlice_nat_len] at hk
+        simp only [h0, Nat.add_zero] at hk
+        omega
+      have he := he3 hn
+      simp only at he hk ⊢
+      rw [he] at hk ⊢
+      exact piece_of_pairs x h pairs tail j _ hgp _ hk
+
+
+/-- every line of `splitlines` is well formed -/
+theorem splitlines_wf (x : AStr) (h : WF x) (keepends : Bool) : ∀ p ∈ x.splitlines keepends, WF p :=
+  PiecesL.splitlines_wf x h keepends
+
+/-! ## 6 — case conversions -/
+
+/-- a case conversion that preserves the length keeps the settings at every position (the table is
+    left alone; without the length hypothesis the equation still holds, but the positions no longer
+    correspond to the same characters — see the `ß` example below) -/
+theorem case_settings (x : AStr) (t : Str) (_ht : t.length = x.len) :
+    ∀ k, act (x.mapText t) k = act x k :=
+  fun _ => rfl
+
+theorem mapText_wf (x : AStr) (h : WF x) (t : Str) (ht : t.length = x.len) : WF (x.mapText t) :=
+  PiecesL.mapText_wf x h t ht
+
+/-! ## 7 — `assign_str` with a shorter text -/
+
+/-- the remaining positions keep their settings -/
+theorem assignStr_shorter (x : AStr) (h : WF x) (t : Str) (ht : t.length < x.len) :
+    ∀ k < t.length, act (x.assignStr t) k = act x k := by
+  intro k hk
+  rw [assignStr_shorter_eq x t ht]
+  show act (x.getSlice none (some (t.length : Int))) k = act x k
+  exact getSlice_to_act x h _ (by rw [assignStr_shorter_slice_len x t ht]; exact hk)
+
+/-- the settings of the removed characters are dropped: nothing is active from the new end on -/
+theorem assignStr_shorter_closed (x : AStr) (h : WF x) (t : Str) (ht : t.length < x.len) :
+    ∀ j ≥ t.length, act (x.assignStr t) j = [] := by
+  intro j hj
+  rw [assignStr_shorter_eq x t ht]
+  show act (x.getSlice none (some (t.length : Int))) j = []
+  rcases Nat.eq_zero_or_pos t.length with h0 | h0
+  · rw [getSlice_of_len_zero x _ _ (by rw [assignStr_shorter_slice_len x t ht]; exact h0)]
+    simp [act, active, activeFrom]
+  · have e : x.getSlice none (some (t.length : Int)) = x.getRange 0 t.length := by
+      unfold AStr.getSlice
+      rw [StrLikeL.sliceIdx_ofNat, Nat.min_eq_left (by omega)]
+      rfl
+    rw [e]
+    exact C04.getRange_closed x h h0 (by omega) j (by omega)
+
+theorem assignStr_wf_shorter (x : AStr) (h : WF x) (t : Str) (ht : t.length < x.len) :
+    WF (x.assignStr t) := by
+  rw [assignStr_shorter_eq x t ht]
+  exact PiecesL.mapText_wf _ (C04.getSlice_wf x h _ _) t (assignStr_shorter_slice_len x t ht).symm
+
+/-! ## Non-vacuity: non-uniformly formatted values -/
+
+section Examples
+
+def red : Setting := ⟨1, "31".toList⟩
+def blue : Setting := ⟨2, "34".toList⟩
+
+/-- `"xabbbb"` with red on `[0, 3)`: the red run ends INSIDE the run of `b`s -/
+def exS : AStr :=
+  { s := "xabbbb".toList, fmts := [(0, { add := [red] }), (3, { rem := [red] })] }
+
+theorem exS_wf : WF exS := wf_run _ 0 3 red (by decide) (by decide)
+
+/-- `"  ab "` with red on `[1, 3)` (one blank and the `a`) -/
+def exT : AStr :=
+  { s := "  ab ".toList, fmts := [(1, { add := [red] }), (3, { rem := [red] })] }
+
+theorem exT_wf : WF exT := wf_run _ 1 3 red (by decide) (by decide)
+
+/-- `" a  b c "` with red on `[0, 5)` (up to and including the `b`) -/
+def exW : AStr :=
+  { s := " a  b c ".toList, fmts := [(0, { add := [red] }), (5, { rem := [red] })] }
+
+theorem exW_wf : WF exW := wf_run _ 0 5 red (by decide) (by decide)
+
+/-- `"a\r\n\nb"` with red on `[0, 4)` (everything but the `b`) -/
+def exL : AStr :=
+  { s := "a\r\n\nb".toList, fmts := [(0, { add := [red] }), (4, { rem := [red] })] }
+
+theorem exL_wf : WF exL := wf_run _ 0 4 red (by decide) (by decide)
+
+/-! strip -/
+example : (exT.stripGen none true true false).s = "ab".toList ∧
+    act (exT.stripGen none true true false) 0 = [red] ∧
+    act (exT.stripGen none true true false) 1 = [] := by decide
+example : act (exT.stripGen none true true false) 1 = act exT (2 + 1) :=
+  strip_settings exT exT_wf none true true false 1 (by decide)
+/-- `rstrip` only: offset 0, the leading blanks stay (the second one is red) -/
+example : (exT.stripGen none false true false).s = "  ab".toList ∧
+    act (exT.stripGen none false true false) 0 = [] ∧
+    act (exT.stripGen none false true false) 1 = [red] := by decide
+/-- hypothesis of `strip_unchanged` is satisfiable (nothing to strip, `inplace`) -/
+example : (exS.stripGen none true true true).len = exS.len ∧ exS.stripGen none true true true = exS := by
+  decide
+
+/-! removeprefix / removesuffix -/
+example : Py.startsWith exS.s "xa".toList = true := by decide
+example : (exS.removeprefix "xa".toList).s = "bbbb".toList ∧
+    act (exS.removeprefix "xa".toList) 0 = [red] ∧ act (exS.removeprefix "xa".toList) 1 = [] := by
+  decide
+example : act (exS.removeprefix "xa".toList) 1 = act exS (2 + 1) :=
+  removeprefix_settings exS exS_wf "xa".toList (by decide) 1 (by decide)
+example : Py.startsWith exS.s "ab".toList = false ∧ exS.removeprefix "ab".toList = exS := by decide
+example : Py.endsWith exS.s "ab".toList = false ∧ exS.removesuffix "ab".toList = exS := by decide
+example : (exS.removesuffix "bb".toList).s = "xabb".toList ∧
+    act (exS.removesuffix "bb".toList) 2 = [red] ∧ act (exS.removesuffix "bb".toList) 3 = [] := by
+  decide
+
+/-! partition / rpartition: `"x" | "ab" | "bbb"`; the last piece starts unstyled -/
+example : Py.find exS.s "ab".toList 0 = some 1 ∧ Py.rfind exS.s "b".toList = some 5 := by decide
+example : (exS.partitionGen "ab".toList false).2.2.s = "bbb".toList ∧
+    act (exS.partitionGen "ab".toList false).1 0 = [red] ∧
+    act (exS.partitionGen "ab".toList false).2.1 1 = [red] ∧
+    act (exS.partitionGen "ab".toList false).2.2 0 = [] := by decide
+example : act (exS.partitionGen "ab".toList false).2.2 0 = act exS (1 + 2 + 0) :=
+  (partition_settings exS exS_wf "ab".toList false 1 (by decide)).2.2.2 0 (by decide)
+/-- the hypotheses of `partition_settings_first` / `rpartition_settings_last` are satisfiable -/
+example : act (exS.partitionGen "ab".toList false).2.2 0 = act exS (1 + 2 + 0) :=
+  (partition_settings_first exS exS_wf "ab".toList 1 (by decide) (by decide) (by decide)).2.2 0
+    (by decide)
+example : act (exS.partitionGen "b".toList true).1 3 = act exS 3 :=
+  (rpartition_settings_last exS exS_wf "b".toList 5 (by decide) (by decide) (fun j h1 h2 => by
+    have : j = 6 := by
+      have : exS.len = 6 := by decide
+      omega
+    subst this
+    decide)).1 3 (by decide)
+example : act (exS.partitionGen "b".toList true).1 2 = [red] ∧
+    act (exS.partitionGen "b".toList true).1 3 = [] ∧
+    act (exS.partitionGen "b".toList true).2.1 0 = [] := by decide
+example : Py.find exS.s "q".toList 0 = none ∧ exS.partitionGen "q".toList false = (exS, {}, {}) := by
+  decide
+
+/-! split at `"ab"`: the pieces are `"x"` (offset 0) and `"bbb"` (offset 3 = 1 + 2); `"bbb"` also
+    occurs at offset 2, where red is still on — the piece must report nothing on its first character -/
+example : ∃ ps, exS.splitGen (some "ab".toList) (-1) false = .ok ps ∧ ps.map (·.s) = ["x".toList, "bbb".toList] ∧
+    ∃ p, ps[1]? = some p ∧ act p 0 = [] ∧ ∃ q, ps[0]? = some q ∧ act q 0 = [red] :=
+  ⟨_, rfl, by decide, _, rfl, by decide, _, rfl, by decide⟩
+example : Py.find exS.s "bbb".toList 0 = some 2 ∧ act exS 2 = [red] ∧ act exS 3 = [] := by decide
+example (ps : List AStr) (hps : exS.splitGen (some "ab".toList) (-1) false = .ok ps) (p : AStr)
+    (hp : ps[1]? = some p) (hk : 0 < p.len) :
+    act p 0 = act exS (((ps.take 1).map (fun q => q.len + 2)).sum + 0) :=
+  split_settings exS exS_wf "ab".toList (by decide) (-1) false ps hps 1 p hp 0 hk
+/-- `rsplit` with `maxsplit` -/
+example : ∃ ps, exS.splitGen (some "b".toList) 2 true = .ok ps ∧
+    ps.map (·.s) = ["xabb".toList, [], []] ∧ ∃ p, ps[0]? = some p ∧ act p 2 = [red] ∧ act p 3 = [] :=
+  ⟨_, rfl, by decide, _, rfl, by decide⟩
+
+/-! whitespace splitting: `" a  b c "` is `" " a "  " b " " c " "`; true offsets 1, 4, 6 -/
+example : Layout Py.isSpace exW.s [" ".toList, "  ".toList, " ".toList, " ".toList]
+    ["a".toList, "b".toList, "c".toList] := ⟨by decide, by decide, by decide⟩
+example : trueOff [" ".toList, "  ".toList, " ".toList, " ".toList] ["a".toList, "b".toList, "c".toList] 1 = 4 ∧
+    trueOff [" ".toList, "  ".toList, " ".toList, " ".toList] ["a".toList, "b".toList, "c".toList] 2 = 6 := by
+  decide
+example : ∃ ps, exW.splitGen none (-1) false = .ok ps ∧
+    ps.map (·.s) = ["a".toList, "b".toList, "c".toList] ∧
+    ps.map (fun p => act p 0) = [[red], [red], []] := ⟨_, rfl, by decide, by decide⟩
+/-- `rsplit(None, 1)`: the unsplit rest `" a  b"` is a prefix of the text and starts with a blank -/
+example : ∃ ps, exW.splitGen none 1 true = .ok ps ∧ ps.map (·.s) = [" a  b".toList, "c".toList] ∧
+    ps.map (fun p => act p 0) = [[red], []] ∧ ps.map (fun p => act p 4) = [[red], []] :=
+  ⟨_, rfl, by decide, by decide, by decide⟩
+example : Layout Py.isSpace exW.s [[], " ".toList, " ".toList] [" a  b".toList, "c".toList] :=
+  ⟨by decide, by decide, by decide⟩
+
+/-! splitlines: `"a\r\n\nb"`; the empty line is located early (offset 1 instead of 3) but has no
+    characters; `b` is found at its true offset 4 -/
+example : AStr.pieceOffsets exL.s 0 (Py.splitlines exL.s false) 0 = [(0, 1), (1, 0), (4, 1)] := by decide
+example : Layout (lineSep false) exL.s [[], "\r\n".toList, "\n".toList, []] ["a".toList, [], "b".toList] :=
+  ⟨by decide, by decide, by decide⟩
+example : trueOff [[], "\r\n".toList, "\n".toList, []] ["a".toList, [], "b".toList] 1 = 3 ∧
+    trueOff [[], "\r\n".toList, "\n".toList, []] ["a".toList, [], "b".toList] 2 = 4 := by decide
+example : (exL.splitlines false).map (·.s) = ["a".toList, [], "b".toList] ∧
+    (exL.splitlines false).map (fun p => act p 0) = [[red], [], []] ∧
+    (exL.splitlines false)[1]? = some { s := [], fmts := [] } := by decide
+/-- an empty line has no determined position (two layouts, offsets 3 and 4), `b` has (offset 4) -/
+example : Layout (lineSep false) exL.s [[], "\r\n\n".toList, [], []] ["a".toList, [], "b".toList] ∧
+    trueOff [[], "\r\n\n".toList, [], []] ["a".toList, [], "b".toList] 1 = 4 ∧
+    trueOff [[], "\r\n\n".toList, [], []] ["a".toList, [], "b".toList] 2 = 4 :=
+  ⟨⟨by decide, by decide, by decide⟩, by decide, by decide⟩
+/-- `keepends`: no gaps at all -/
+example : Layout (lineSep true) exL.s [[], [], [], []] ["a\r\n".toList, "\n".toList, "b".toList] :=
+  ⟨by decide, by decide, by decide⟩
+example : (exL.splitlines true).map (·.s) = ["a\r\n".toList, "\n".toList, "b".toList] ∧
+    (exL.splitlines true).map (fun p => act p 0) = [[red], [red], []] := by decide
+
+/-! case conversion -/
+example : "XABBBB".toList.length = exS.len ∧ act (exS.mapText "XABBBB".toList) 2 = [red] ∧
+    act (exS.mapText "XABBBB".toList) 3 = [] := by decide
+example : WF (exS.mapText "XABBBB".toList) := mapText_wf exS exS_wf _ (by decide)
+/-- what the property excludes: `'aßb'.upper() == 'ASSB'` is longer; the table stays, so the second
+    `S` reports the settings of the old `b` and the new `B` reports nothing -/
+example :
+    let x : AStr :=
+      { s := "aßb".toList,
+        fmts := [(1, { add := [red] }), (2, { add := [blue], rem := [red] }), (3, { rem := [blue] })] }
+    "ASSB".toList.length ≠ x.len ∧ act (x.mapText "ASSB".toList) 1 = [red] ∧
+      act (x.mapText "ASSB".toList) 2 = [blue] ∧ act (x.mapText "ASSB".toList) 3 = [] := by decide
+
+/-! assign_str with a shorter text -/
+example : "XY".toList.length < exS.len := by decide
+example : exS.assignStr "XY".toList = { s := "XY".toList, fmts := [(0, { add := [red] }), (2, { rem := [red] })] } := by
+  decide
+example : act (exS.assignStr "XY".toList) 1 = act exS 1 :=
+  assignStr_shorter exS exS_wf _ (by decide) 1 (by decide)
+example : act (exS.assignStr "XY".toList) 2 = [] :=
+  assignStr_shorter_closed exS exS_wf _ (by decide) 2 (by decide)
+example : WF (exS.assignStr "XY".toList) := assignStr_wf_shorter exS exS_wf _ (by decide)
+example : exS.assignStr "wxyz".toList =
+    { s := "wxyz".toList, fmts := [(0, { add := [red] }), (3, { rem := [red] })] } := by decide
+
+end Examples
+
 end C11
+
+#print axioms C11.strip_settings
+#print axioms C11.strip_at
+#print axioms C11.strip_unchanged
+#print axioms C11.strip_wf
+#print axioms C11.removeprefix_settings
+#print axioms C11.removeprefix_absent
+#print axioms C11.removesuffix_settings
+#print axioms C11.removesuffix_absent
+#print axioms C11.removeprefix_wf
+#print axioms C11.removesuffix_wf
+#print axioms C11.partition_settings
+#print axioms C11.partition_settings_first
+#print axioms C11.rpartition_settings_last
+#print axioms C11.partition_absent
+#print axioms C11.partition_wf
+#print axioms C11.split_settings
+#print axioms C11.split_wf
+#print axioms C11.Layout.piece_at
+#print axioms C11.Layout.trueOff_unique
+#print axioms C11.Layout.trueOff_unique_nonempty
+#print axioms C11.splitWs_settings
+#print axioms C11.splitlines_settings
+#print axioms C11.splitlines_wf
+#print axioms C11.case_settings
+#print axioms C11.mapText_wf
+#print axioms C11.assignStr_shorter
+#print axioms C11.assignStr_shorter_closed
+#print axioms C11.assignStr_wf_shorter
